@@ -6,7 +6,11 @@ Theorems about the relay: what the bridge hands to the engine is exactly the han
 their arguments, in issue order within each kind, sends first, then local sends, then timer
 operations (`C18_relay_canonical`); the `(name, delay, once)` / `delay < 0` encoding is decoded to
 exactly the call that was made on the domain Python accepts (`C18_decode_exact`); a call Python
-rejects fails the handler (`C18_negative_delay_raises`).  Hence a Python process equals the Rust
+rejects fails the handler (`C18_negative_delay_raises`), and a handler fails *iff* one of its calls is
+rejected (`C18_handler_fails_iff`: no exception is swallowed, none invented); a handler without rejected
+calls always completes and is relayed canonically (`C18_accepted_handler_relays`); the canonical order
+is a fixed point of the relay (`C18_canon_idempotent`), so a Rust twin issuing its calls in that order
+is relayed unchanged.  Hence a Python process equals the Rust
 process that issues the same calls in canonical order; the engines are functions of the action list.
 Pickle, `deepcopy`, PyO3 conversions and JSON text are runtime behaviour: they are covered by the
 correspondence runs only (Python twin processes through the real bridge).
@@ -17,5 +21,8 @@ namespace Anysystem
 #check @C18_decode_exact
 #check @C18_negative_delay_raises
 #check @C18_failing_call_fails_handler
+#check @C18_handler_fails_iff
+#check @C18_accepted_handler_relays
+#check @C18_canon_idempotent
 
 end Anysystem
